@@ -28,15 +28,17 @@ CHECKS = {
         technique="exhaustive evaluation of table invariants (contracts over constant tables) against an interoperability oracle",
     ),
     "C05": dict(
-        category="other",
-        text="Necessary conditions only. Helper closure over the statement and helper tables, decided exhaustively on every "
-             "run for language c and c++: every Shroud* function a row's code templates call is defined by a helper the row "
-             "lists or one reachable through dependent_helpers; every helper named exists; dependent_helpers is acyclic. "
-             "Found and repaired a genuine link-time defect (four row families called helpers nothing emitted).",
+        category="proof",
+        text="Necessary conditions only. (1) Helper closure over the statement and helper tables, decided exhaustively on "
+             "every run for c and c++: every Shroud* function a row's templates call is defined by a helper the row lists or "
+             "reaches through dependent_helpers; helpers exist; dependent_helpers acyclic. (2) Deductive (VCs from the real "
+             "source, z3/cvc5): preprocessor conditionals opened by util.Header.write_includes_for_header, "
+             "write_include_group, util.extern_C and Wrapc.write_header are closed on every path, never negative, and the "
+             "include-guard macro of #ifndef/#define is the one in the closing comment.",
         design_ref="6/C05",
-        note="Not covered: acceptance of whole emitted files by gcc/g++/gfortran, include-guard balance (planned unit), "
-             "Python/Lua tables.",
-        technique="exhaustive evaluation of table invariants (contracts over constant tables)",
+        note="Not covered: acceptance of whole emitted files by gcc/g++/gfortran, Fortran USE/IMPORT bookkeeping, helper "
+             "hand-off between modules (gather_helper_code), Python/Lua tables. Trusted: callee lines balanced.",
+        technique="contract-based deductive verification (AST-generated VCs) + exhaustive table invariants",
     ),
     "C10": dict(
         category="proof",
